@@ -1219,6 +1219,7 @@ func main() {
 	}
 	files["LifeFacts.lean"] = fmt.Sprintf("/- GENERATED by /verif/extract from /repo — do not edit. -/\nimport ShipVerif.Model.Life\nnamespace ShipVerif.Generated\n\n/-- hub/hub_connections.go keepThisConnection: design facts -/\ndef lifeCfg : ShipVerif.Life.Cfg := { closeOldNow := %v }\n\nend ShipVerif.Generated\n", lifeCfg(*repo))
 	files["RaceFacts.lean"] = raceFactsLean(*repo, vals)
+	files["NotifyFacts.lean"] = notifyFactsLean(*repo)
 	files["RegFacts.lean"] = fmt.Sprintf("/- GENERATED by /verif/extract from /repo — do not edit. -/\nimport ShipVerif.Model.Reg\nnamespace ShipVerif.Generated\n\n/-- hub/hub_shipconnection.go HandleConnectionClosed: design facts -/\ndef regCfg : ShipVerif.Reg.Cfg := { closeAtomic := %v }\n\nend ShipVerif.Generated\n", regCfg(*repo))
 	files["AsyncFacts.lean"] = fmt.Sprintf("/- GENERATED by /verif/extract from /repo — do not edit. -/\nimport ShipVerif.Model.View\nnamespace ShipVerif.Generated\n\n/-- mdns/mdns.go: reports are delivered under a mutex and dropped when a newer snapshot was delivered -/\ndef mdnsReportCfg : ShipVerif.Async.Cfg := { guarded := %v }\n\nend ShipVerif.Generated\n", mdnsReportGuarded(*repo))
 	if *withLocks {
